@@ -316,7 +316,7 @@ def shrink(mod, tier, seed, shard, per, case, bucket, budget_s=60):
 
 
 def write_replay(prop_id, case, fails):
-    d = os.path.join(HERE, "replays", prop_id)
+    d = os.path.join(os.environ.get("VK_REPLAY_DIR") or os.path.join(HERE, "replays"), prop_id)
     os.makedirs(d, exist_ok=True)
     h = C.case_hash(case)[:12]
     path = os.path.join(d, f"violation-{h}.json")
@@ -474,8 +474,9 @@ def run_property(mod, tier, seed):
         "wall_s": round(time.time() - t0, 2),
         "violations": len(violations),
     }
-    os.makedirs(os.path.join(HERE, "evidence"), exist_ok=True)
-    with open(os.path.join(HERE, "evidence", f"{prop_id}.json"), "w") as f:
+    evdir = os.environ.get("VK_EVIDENCE_DIR") or os.path.join(HERE, "evidence")
+    os.makedirs(evdir, exist_ok=True)
+    with open(os.path.join(evdir, f"{prop_id}.json"), "w") as f:
         json.dump(ev, f, indent=1, default=str)
     for ln in lines:
         print(ln)
